@@ -107,7 +107,7 @@ func (el *eventloop) closeConns() {
 
 type connWithCallback struct {
 	c  *conn
-	cb func()
+	cb func(err error) // err is non-nil when the connection could not be registered with the poller
 }
 
 func (el *eventloop) enroll(c net.Conn, addr net.Addr, ctx any) (resCh chan RegisteredResult, err error) {
@@ -195,7 +195,9 @@ func (el *eventloop) enroll(c net.Conn, addr net.Addr, ctx any) (resCh chan Regi
 
 		handedOver = true
 		connOpened := make(chan struct{})
-		ccb := &connWithCallback{c: gc, cb: func() {
+		var regErr error
+		ccb := &connWithCallback{c: gc, cb: func(err error) {
+			regErr = err
 			close(connOpened)
 		}}
 		if err := el.poller.Trigger(queue.LowPriority, el.register, ccb); err != nil {
@@ -204,6 +206,10 @@ func (el *eventloop) enroll(c net.Conn, addr net.Addr, ctx any) (resCh chan Regi
 			return
 		}
 		<-connOpened
+		if regErr != nil {
+			resCh <- RegisteredResult{Err: regErr}
+			return
+		}
 
 		resCh <- RegisteredResult{Conn: gc}
 	})
@@ -215,12 +221,26 @@ func (el *eventloop) register(a any) error {
 	if !ok {
 		ccb := a.(*connWithCallback)
 		c = ccb.c
-		defer ccb.cb()
+		if err := el.attach(c); err != nil {
+			ccb.cb(err)
+			return err
+		}
+		defer ccb.cb(nil)
+		return el.activate(c)
 	}
 	return el.register0(c)
 }
 
 func (el *eventloop) register0(c *conn) error {
+	if err := el.attach(c); err != nil {
+		return err
+	}
+	return el.activate(c)
+}
+
+// attach registers the connection with the poller and the event-loop,
+// it closes and releases the connection on failure.
+func (el *eventloop) attach(c *conn) error {
 	addEvents := el.poller.AddRead
 	if el.engine.opts.EdgeTriggeredIO {
 		addEvents = el.poller.AddReadWrite
@@ -231,6 +251,10 @@ func (el *eventloop) register0(c *conn) error {
 		return err
 	}
 	el.connections.addConn(c, el.idx)
+	return nil
+}
+
+func (el *eventloop) activate(c *conn) error {
 	if c.isDatagram && c.remote != nil {
 		return nil
 	}
